@@ -3,6 +3,7 @@ package h
 import (
 	"bufio"
 	"crypto/tls"
+	"fmt"
 	"net"
 	"strings"
 
@@ -38,6 +39,7 @@ func (cs *CS) ToClient() []byte {
 // WithRealServer runs f with a go-smtp client talking to a go-smtp server.
 // implicitTLS wraps both ends in TLS first. Must be called inside a Bubble.
 func WithRealServer(cfg Config, be *Backend, implicitTLS bool, f func(cs *CS)) {
+	defer GuardEnter(fmt.Sprintf("real client <-> real server, config %+v", cfg))()
 	cs := &CS{Be: be, Log: &LogBuf{}}
 	cs.Srv = cfg.NewServer(be, cs.Log)
 	cs.CEnd, cs.SEnd = NewDuplex()
